@@ -27,6 +27,9 @@ CLAIMS = {
  "C08": (TECH2,
          "Threshold logic decided for all non-negative integers by z3 on the AST translation of both _check_usage methods; the symbol tables compared with CPython's parser as z3 functions over the finite symbol sort; the real find_* helpers and ensure_*/prevent_* classes decided by CrossHair over programs with symbolic identifier / constant leaves and over operator / statement menus (incl. chained comparisons and nesting), against a plain walk of CPython's tree.",
          "program shapes come from a fixed family; queried names/literals from menus (they are formatted / rendered); CrossHair/z3 models", "DESIGN.md §3 C08"),
+ "C09": (TECH2,
+         "Inductive step: from every reachable symbolic abstract pre-state of a variable (z3 strings over yes/no/maybe) the real Tifa.visit is run on blocks from 7 shapes x 7 atoms and compared with a reference interpreter over the concretisation and all branch outcomes: issue labels and lines for every read, and the abstract post-state, are exact; match_rso is the exact join (z3, all pairs). Loops: no missed uninitialised read for while; the for-loop case is a recorded known finding. Nesting beyond the checked shapes is covered by the structural-induction argument only.",
+         "semi-internal entry (planted name_map + Tifa.visit); reference interpreter is the oracle; independent branch conditions", "DESIGN.md §3 C09"),
  "C10": (TECH,
          "For 44 pattern x student-shape pairs (quick: 26) with symbolic identifiers and constants in the student tree, CrossHair confirms over all paths that every AstMap the real matcher returns passes an independent witness checker (kinds, primitive content in type and value, direct ordered children up to +/* swap, single identifier per _var_, __expr__ bound to the node at its position) and that absent concrete content yields no match; identifiers at the boundary of the placeholder syntax are shown to be treated as concrete code.",
          "shape and pattern families are finite; trees with symbolic leaves are built with ast constructors; the witness checker is the oracle", "DESIGN.md §3 C10"),
